@@ -13,6 +13,7 @@ pub enum MK { // mark kinds
     Op(&'static str),          // operator in eval expr: expected token type name
     IntOperand,                // standalone integer operand in eval
     HiddenWs,                  // insignificant ws/comment token must be hidden/comment channel
+    NotInt,                    // a digit run that is only part of an operand (glued to a macro variable reference): not an integer-literal token
 }
 #[derive(Debug, Clone)]
 pub struct Mark { pub off: usize, pub len: usize, pub kind: MK }
@@ -389,6 +390,7 @@ impl<'a> G<'a> {
             5 => { self.user_call(2); self.p(" "); }
             6 => { self.d_inc(); self.builtin_call(2); self.depth -= 1; }
             7 => { if float { let s = self.pick(&["1.5", "2.", ".25", "1e3", "2.5E-1"]); self.p(s); } else { self.mark("7", MK::IntOperand); } }
+            8 if !nonword && self.u.coin(1, 2) => { self.feat("composite-operand"); let dg = self.pick(&["1", "20", "0"]); self.mark(dg, MK::NotInt); let f = self.pick(&["&&a", "&a", "&a.", "&a&b", "&&a&i"]); self.p(f); }
             8 => { self.p("'q'"); }
             _ => { self.p("\"d"); self.tp(); self.mvar(true); self.tp(); self.p("\""); }
         }
